@@ -7,14 +7,15 @@ import (
 // Timer is a virtual timer. Kind 0: fires by calling Fire (channel timers and tickers: Fire performs
 // the non-blocking send); kind 1: wakes a sleeping thread; kind 2: releases an AfterFunc thread.
 type Timer struct {
-	when   int64
-	seq    int
-	period int64
-	active bool
-	fired  bool
-	kind   int
-	Fire   func(nowNS int64)
-	th     *Thread
+	when    int64
+	seq     int
+	period  int64
+	active  bool
+	fired   bool
+	kind    int
+	Fire    func(nowNS int64)
+	th      *Thread
+	harness bool // armed by the test harness, not by the code under test
 }
 
 //go:norace
@@ -23,6 +24,9 @@ func (x *Exec) addTimer(tm *Timer, d int64) {
 		d = 0
 	}
 	tm.when = x.now + d
+	if tm.when < x.now { // overflow: never
+		tm.when = 1<<63 - 1
+	}
 	x.timerSeq++
 	tm.seq = x.timerSeq
 	tm.active = true
@@ -80,6 +84,9 @@ func (x *Exec) fireNextTimer() {
 	x.steps++
 	if tm.period > 0 {
 		tm.when += tm.period
+		if tm.when < x.now {
+			tm.when = 1<<63 - 1
+		}
 		x.timerSeq++
 		tm.seq = x.timerSeq
 	} else {
@@ -165,10 +172,18 @@ func (tm *Timer) ResetPeriod(d int64) {
 //go:norace
 func (tm *Timer) Active() bool { return tm.active }
 
-// Sleep blocks the running thread for d virtual nanoseconds.
+// Sleep blocks the running thread for d virtual nanoseconds (time.Sleep of the code under test).
 //
 //go:norace
-func Sleep(d int64) {
+func Sleep(d int64) { sleep(d, false) }
+
+// HSleep is Sleep for the test harness: its timer is not counted among the library's armed timers.
+//
+//go:norace
+func HSleep(d int64) { sleep(d, true) }
+
+//go:norace
+func sleep(d int64, harness bool) {
 	x := cur
 	if x == nil || x.aborting {
 		return
@@ -177,7 +192,7 @@ func Sleep(d int64) {
 		x.point(pending{kind: OpYield})
 		return
 	}
-	tm := &Timer{kind: 1}
+	tm := &Timer{kind: 1, harness: harness}
 	x.addTimer(tm, d)
 	x.point(pending{kind: OpSleep, tm: tm})
 }
